@@ -47,6 +47,9 @@ class Ctx:
         self.replays_ok = 0
         self.replays_run = 0
         self.exports = []
+        self.seen = set()
+        self.only = [x for x in os.environ.get('VERIF_ONLY', '').split(',') if x]
+        self.cover_budget = {}
 
     def cleanup(self):
         shutil.rmtree(self.out, ignore_errors=True)
@@ -86,21 +89,21 @@ class Ctx:
         return outp
 
     # ---------------------------------------------------------------- replay
-    def replay(self, files, pkgdir, pkgpath, entry, inputs, timeout=180, extra_test=None, tagname='replay'):
+    def replay(self, files, pkgdir, pkgpath, entry, inputs, timeout=180, params=None, tagname='replay'):
         """run harness `entry` natively with the given inputs; returns the parsed VERIF-RESULT dict (or None)"""
         self.replays_run += 1
         n = self.replays_run
         alias = 'hpkg'
         test = ('//go:build verif\n\npackage %s_test\n\nimport (\n\t"testing"\n\n\t"%s/internal/verifrt"\n\t%s "%s"\n)\n\n'
                 'func TestVerifReplay(t *testing.T) {\n\tverifrt.RunReplay(map[string]func(){"%s": %s.%s})\n}\n'
-                % (pkgpath.rsplit('/', 1)[-1].replace('-', '_'), MOD, alias, pkgpath, entry, alias, entry))
+                % (self.pkgname(files, pkgdir), MOD, alias, pkgpath, entry, alias, entry))
         tf = os.path.join(self.out, 'replay_test_%d.go' % n)
         open(tf, 'w').write(test)
         f2 = dict(files)
         f2[os.path.join(pkgdir, 'zz_verif_replay_test.go')] = tf
         ov = self.overlay(f2, native=True, name='%s%d' % (tagname, n))
         rfile = os.path.join(self.out, 'replay_%d.json' % n)
-        json.dump({'entry': entry, 'inputs': inputs}, open(rfile, 'w'))
+        json.dump({'entry': entry, 'inputs': inputs, 'params': params or {}}, open(rfile, 'w'))
         cmd = ['go', 'test', '-modfile=' + self.modfile, '-tags', 'verif', '-vet=off', '-count=1', '-overlay', ov,
                '-run', '^TestVerifReplay$', '-v', './' + pkgdir]
         env = dict(GOENV, VERIF_REPLAY=rfile)
@@ -116,6 +119,17 @@ class Ctx:
                 return res
         self.notes.append('replay produced no result: ' + (r.stdout[-1500:] + r.stderr[-1500:]))
         return None
+
+    def pkgname(self, files, pkgdir):
+        """Go package name of the harness package = the `package` clause of an overlay file in that directory"""
+        import re
+        for v, r in files.items():
+            if os.path.dirname(v) == pkgdir:
+                rp = r if os.path.isabs(r) else os.path.join(VERIF, 'harness', r)
+                m = re.search(r'^package\s+(\w+)', open(rp).read(), re.M)
+                if m:
+                    return m.group(1)
+        return pkgdir.rsplit('/', 1)[-1].replace('-', '_')
 
     def keep_replay(self, label, entry, inputs, extra=None):
         os.makedirs(os.path.join(VERIF, 'replays'), exist_ok=True)
@@ -141,7 +155,7 @@ def _model_inputs(eng, m, z3, gosmt):
     for k, v in eng.inputs.items():
         if isinstance(v, tuple) and v[0] == 'str':
             n = m.eval(v[2], model_completion=True).as_long()
-            out[k] = [m.eval(z3.Select(v[1], gosmt.bvc(j, 64)), model_completion=True).as_long() for j in range(n)]
+            out[k] = [m.eval(v[1][j], model_completion=True).as_long() for j in range(n)]
         elif isinstance(v, tuple) and v[0] == 'fork':
             out[k] = v[1]
         elif gosmt.is_sym(v):
@@ -273,7 +287,7 @@ def run_jobs(jobs, procs=NCPU):
 class Harness:
     """one harness entry: Go function `entry` in package `pkgpath` (directory `pkgdir`), overlay files"""
     def __init__(self, entry, pkgdir, files, unwind=16, timeout_ms=60000, opts=None, pkgs=None, replay=True,
-                 replay_timeout=240, hang_labels=(), cover_replay=1):
+                 replay_timeout=240, hang_labels=(), cover_replay=1, cover_budget=3):
         self.entry, self.pkgdir, self.files = entry, pkgdir, files
         self.pkgpath = MOD + '/' + pkgdir
         self.unwind, self.timeout_ms, self.opts = unwind, timeout_ms, opts or {}
@@ -281,6 +295,7 @@ class Harness:
         self.replay, self.replay_timeout = replay, replay_timeout
         self.hang_labels = set(hang_labels)
         self.cover_replay = cover_replay
+        self.cover_budget = cover_budget
 
     @property
     def fq(self):
@@ -330,9 +345,11 @@ def post_process(ctx, h, r):
     """replays for SAT obligations and covers; classification"""
     covers_done = 0
     for c in r['covers']:
-        if c['result'] == 'sat' and h.replay and covers_done < h.cover_replay and c.get('model') is not None:
+        if (c['result'] == 'sat' and h.replay and covers_done < h.cover_replay and c.get('model') is not None
+                and ctx.cover_budget.get(h.entry, 0) < h.cover_budget):
+            ctx.cover_budget[h.entry] = ctx.cover_budget.get(h.entry, 0) + 1
             covers_done += 1
-            rr = ctx.replay(h.files, h.pkgdir, h.pkgpath, h.entry, merge_inputs(c['model'], r['forks']), h.replay_timeout)
+            rr = ctx.replay(h.files, h.pkgdir, h.pkgpath, h.entry, merge_inputs(c['model'], r['forks']), h.replay_timeout, h.opts.get('params'))
             c['replayed'] = bool(rr and c['label'] in rr.get('covers', []) and not rr.get('assume_broken'))
             if c['replayed']:
                 ctx.replays_ok += 1
@@ -341,7 +358,7 @@ def post_process(ctx, h, r):
                 log('COVER-REPLAY-MISMATCH', h.entry, c['label'], rr)
         if c['result'] == 'unsat':
             ctx.notes.append('VACUOUS cover %s in %s forks=%s' % (c['label'], h.entry, r['forks']))
-    seen_labels = set()
+    seen_labels = ctx.seen
     for ob in r['obligations']:
         label = ob['label']
         kind = label.split(':')[0]
@@ -357,7 +374,7 @@ def post_process(ctx, h, r):
                 kf = [x for x in ctx.known if x.get('region') == k['region'] and x.get('harness') == h.entry][0]
                 ok = True
                 if h.replay:
-                    rr = ctx.replay(h.files, h.pkgdir, h.pkgpath, h.entry, merge_inputs(k['model'], r['forks']), h.replay_timeout)
+                    rr = ctx.replay(h.files, h.pkgdir, h.pkgpath, h.entry, merge_inputs(k['model'], r['forks']), h.replay_timeout, h.opts.get('params'))
                     ok = reproduced(rr, label, h)
                 if ok:
                     ctx.replays_ok += 1 if h.replay else 0
@@ -387,12 +404,12 @@ def post_process(ctx, h, r):
             ob['status'] = 'violated-unreplayed'
             ctx.notes.append('SAT-WITHOUT-REPLAY %s %s %s' % (h.entry, label, json.dumps(inputs)[:400]))
             continue
-        rr = ctx.replay(h.files, h.pkgdir, h.pkgpath, h.entry, inputs, h.replay_timeout)
+        rr = ctx.replay(h.files, h.pkgdir, h.pkgpath, h.entry, inputs, h.replay_timeout, h.opts.get('params'))
         if reproduced(rr, label, h):
             seen_labels.add(key)
             ctx.replays_ok += 1
             ob['status'] = 'violated'
-            path = ctx.keep_replay(label, h.entry, inputs, {'pkgdir': h.pkgdir, 'files': h.files, 'native_result': rr})
+            path = ctx.keep_replay(label, h.entry, inputs, {'pkgdir': h.pkgdir, 'files': h.files, 'params': h.opts.get('params'), 'native_result': rr})
             ctx.violations.append((label, path))
             log('VIOLATION property=%s replay=%s' % (ctx.pid, path))
             log('   harness=%s label=%s inputs=%s' % (h.entry, label, json.dumps(inputs)[:600]))
